@@ -828,6 +828,9 @@ fn judge_cons(ctx: &mut Ctx, c: &Case, res: &Result<Vec<DltMessage>, Panicked>) 
                 j += 1;
             } else {
                 // dropped: only a file-transfer data package may be
+                if ref_is_flda(m) {
+                    ctx.landmark("flda_package_dropped");
+                }
                 if !ref_is_flda(m) {
                     let who = blame(&c.chain, input, &|_, before, _, keep| !keep && !ref_is_flda(before));
                     ctx.violation("dropped_non_flda", &who, cj, format!("message '{}' (index {}) is not a file transfer data package but was not forwarded", c.tags[i], m.index));
@@ -1246,6 +1249,8 @@ fn ft_pool() -> Vec<T> {
         ft("ft_plain", b"FT\0\0", b"FILE", A::new(false).utf8(b"just a log")),
         ft("ft_flst", b"FT\0\0", b"FILE", A::new(false).s(b"FLST").u32v(1).s(b"a.bin").u32v(6).s(b"2024").u32v(2).u16v(4).s(b"FLST")),
         ft("flda_1", b"FT\0\0", b"FILE", A::new(false).s(b"FLDA").u32v(1).i32v(1).raw(&[1, 2, 3, 4]).s(b"FLDA")),
+        // the announcement repeated while the transfer is running (a re-sent announcement is not a data package)
+        ft("ft_flst_again", b"FT\0\0", b"FILE", A::new(false).s(b"FLST").u32v(1).s(b"a.bin").u32v(6).s(b"2024").u32v(2).u16v(4).s(b"FLST")),
         ft("flda_2", b"FT\0\0", b"FILE", A::new(false).s(b"FLDA").u32v(1).i32v(2).raw(&[5, 6]).s(b"FLDA")),
         ft("ft_flfi", b"FT\0\0", b"FILE", A::new(false).s(b"FLFI").u32v(1).s(b"FLFI")),
         ft("flda_orphan", b"FT\0\0", b"FILE", A::new(false).s(b"FLDA").u32v(9).i32v(2).raw(&[7]).s(b"FLDA")),
@@ -1432,7 +1437,10 @@ impl Prop for C19 {
                         if rev {
                             sel.reverse();
                         }
-                        let (tags, msgs) = compose(&sel);
+                        let (tags, mut msgs) = compose(&sel);
+                        // one lifecycle for the whole scenario: the transfer key is (ecu, lifecycle, serial), with
+                        // position-dependent lifecycles no package would ever belong to its announcement
+                        msgs.iter_mut().for_each(|m| m.lifecycle = 1);
                         run_case(ctx, &Case { family: "file_transfer".into(), chain: vec![PSpec::Ft(cfg.clone())], tags, msgs });
                         tick!(ctx, 1024);
                     }
